@@ -643,12 +643,17 @@ class SequenceWaveform(Waveform):
         if output_array is None:
             output_array = _ALLOCATION_FUNCTION(sample_times, **_ALLOCATION_FUNCTION_KWARGS)
         time = 0
-        for subwaveform in self._sequenced_waveforms:
+        last_index = len(self._sequenced_waveforms) - 1
+        for index, subwaveform in enumerate(self._sequenced_waveforms):
             # before you change anything here, make sure to understand the difference between basic and advanced
             # indexing in numpy and their copy/reference behaviour
             end = time + subwaveform.duration
 
-            indices = slice(*sample_times.searchsorted((float(time), float(end)), 'left'))
+            # every sub waveform owns [time, end); the last one owns [time, end] because t == duration is a valid
+            # sample time
+            indices = slice(sample_times.searchsorted(float(time), 'left'),
+                            sample_times.searchsorted(float(end),
+                                                      'right' if index == last_index else 'left'))
             subwaveform.unsafe_sample(channel=channel,
                                       sample_times=sample_times[indices]-np.float64(time),
                                       output_array=output_array[indices])
@@ -866,9 +871,14 @@ class RepetitionWaveform(Waveform):
             output_array = _ALLOCATION_FUNCTION(sample_times, **_ALLOCATION_FUNCTION_KWARGS)
         body_duration = self._body.duration
         time = 0
-        for _ in range(self._repetition_count):
+        last_repetition = self._repetition_count - 1
+        for repetition in range(self._repetition_count):
             end = time + body_duration
-            indices = slice(*sample_times.searchsorted((float(time), float(end)), 'left'))
+            # every repetition owns [time, end); the last one owns [time, end] because t == duration is a valid
+            # sample time
+            indices = slice(sample_times.searchsorted(float(time), 'left'),
+                            sample_times.searchsorted(float(end),
+                                                      'right' if repetition == last_repetition else 'left'))
             self._body.unsafe_sample(channel=channel,
                                      sample_times=sample_times[indices] - float(time),
                                      output_array=output_array[indices])
